@@ -1,7 +1,7 @@
 (* C15/Property.v — ONLY the property theorems (each closed by a lemma of Proofs*.v) + Print Assumptions.
    Models: C15/Model.v (A: NameAuthority / graph histories, B: NameFixPass, C: rename_values). *)
 From Coq Require Import NArith List Bool Lia.
-From IRV Require Import Base.Exn C15.Model C15.ProofsA C15.ProofsA2 C15.ProofsB.
+From IRV Require Import Base.Exn C15.Model C15.ProofsA C15.ProofsA2 C15.ProofsB C15.ProofsC C15.ProofsC2 C15.ProofsC3.
 Import ListNotations.
 Open Scope N_scope.
 
@@ -97,3 +97,22 @@ Proof.
   destruct fix_post_unsorted_refuted as [A [B [C [D E]]]]. repeat split; try assumption. discriminate.
 Qed.
 Print Assumptions C15_fix_post_unsorted_refuted.
+
+(* ===================== (C) rename_values ===================== *)
+
+(* For every well-formed state (initializers keyed by their names, flags consistent: RInv, satisfiable by
+   ex_state_RInv) and every assignment - duplicates, swaps, cycles, initializers of several graphs, targets
+   equal to names of other initializers, empty targets, mismatched lengths included:
+   either the call raises and the state is unchanged, or every pair is applied, all other names are unchanged,
+   the state is well-formed again (initializers keyed by their current names), every graph has the same set of
+   initializer values, and no flag / owning graph changed. *)
+Theorem C15_rename_all_or_nothing :
+  forall vs ns s, RInv s ->
+  forall s' r, rename_values vs ns s = (s', r) ->
+  match r with
+  | Raise _ => s' = s
+  | Ok _ =>
+      (forall v n, In (v, n) (combine vs ns) -> r_vn s' v = Some n) /      (forall v, ~ In v vs -> r_vn s' v = r_vn s v) /      RInv s' /      (forall g u, (exists k, In (k, u) (get_dict g (r_inits s'))) <-> (exists k, In (k, u) (get_dict g (r_inits s)))) /      (forall u, r_isinit s' u = r_isinit s u /\ r_vgraph s' u = r_vgraph s u) /      same_but s s'
+  end.
+Proof. exact rename_all_or_nothing. Qed.
+Print Assumptions C15_rename_all_or_nothing.
